@@ -261,7 +261,33 @@ Lemma in_ggm_pairs d j k : In (j, k) (ggm_pairs d) -> (j < k < d)%nat.
 Proof.
   unfold ggm_pairs. rewrite in_concat. intros [l [Hl Hin]].
   apply in_build in Hl. destruct Hl as [j' [Hj' ->]].
-  apply in_build in Hin. destruct Hin as [t [Ht E]]. injection E as -> ->. lia.
+  apply in_map_iff in Hin. destruct Hin as [k' [E Hk]]. injection E as -> ->.
+  apply filter_In in Hk. destruct Hk as [Hk1 Hk2]. apply in_seq in Hk1. apply Nat.ltb_lt in Hk2. lia.
+Qed.
+
+(* flattening of a two-level list: position r holds the element (r / d, r mod d) *)
+Lemma build_S {A} n (f : nat -> A) : build (S n) f = build n f ++ [f n].
+Proof. unfold build. rewrite seq_S, map_app. reflexivity. Qed.
+Lemma concat_build_length {A} m d (f : nat -> nat -> A) :
+  length (concat (build m (fun a => build d (f a)))) = (m * d)%nat.
+Proof.
+  induction m. reflexivity.
+  rewrite build_S, concat_app, app_length, IHm. simpl. rewrite app_nil_r, build_length. lia.
+Qed.
+Lemma nth_concat_build {A} m d (f : nat -> nat -> A) r dflt : (r < m * d)%nat ->
+  nth r (concat (build m (fun a => build d (f a)))) dflt = f (r / d)%nat (r mod d)%nat.
+Proof.
+  induction m; intros Hr. simpl in Hr. lia.
+  assert (Hd : d <> 0%nat) by (intros ->; lia).
+  rewrite build_S, concat_app. simpl concat at 2. rewrite app_nil_r.
+  destruct (lt_dec r (m * d)) as [H|H].
+  - rewrite app_nth1 by (rewrite concat_build_length; auto). apply IHm; auto.
+  - rewrite app_nth2 by (rewrite concat_build_length; lia). rewrite concat_build_length.
+    assert (Hk : (r - m * d < d)%nat) by (simpl in Hr; lia).
+    rewrite nth_build by auto.
+    assert (E : r = (d * m + (r - m * d))%nat) by lia.
+    rewrite <- (Nat.div_unique r d m (r - m * d) Hk E).
+    rewrite <- (Nat.mod_unique r d m (r - m * d) Hk E). reflexivity.
 Qed.
 
 Lemma csumn_delta2 d p q (f : nat -> nat -> Cx) : (p < d)%nat -> (q < d)%nat ->
@@ -759,8 +785,11 @@ Definition Sfun (S : list (list R)) : nat -> nat -> Cx := fun i j => (rget RO S 
 Lemma choi_entry S r c : (r < d * d)%nat -> (c < d * d)%nat ->
   toF (liouville_to_choi RO d S basis) r c = choiF d n Clb (Sfun S) r c.
 Proof.
-  intros Hr Hc. unfold toF, liouville_to_choi. rewrite mget_mbuild by auto.
-  unfold choiF, choi4. fold n. apply csumn_ext. intros i _. apply csumn_ext. intros j _.
+  intros Hr Hc. unfold toF, mget, liouville_to_choi.
+  rewrite (nth_concat_build d d (fun a c' => concat (build d (fun b => build d (fun e =>
+             choi_entry4 RO S basis a c' b e)))) r []) by auto.
+  rewrite (nth_concat_build d d (fun b e => choi_entry4 RO S basis (r / d) (r mod d) b e) c 0c) by auto.
+  unfold choiF, choi4, choi_entry4. fold n. apply csumn_ext. intros i _. apply csumn_ext. intros j _.
   unfold Cl, toF, Sfun. cring.
 Qed.
 Lemma choi_feq S : feq (d * d) (toF (liouville_to_choi RO d S basis)) (choiF d n Clb (Sfun S)).
@@ -837,15 +866,6 @@ Let s : R := 1 / sqrt (INR d).
 Definition omg (r : nat) : R := if Nat.eqb (r mod (d + 1)) 0 then s else 0.
 Definition Qf : fmat := fun r c => ((if Nat.eqb r c then 1 else 0) - omg r * omg c, 0).
 
-Lemma omega_vec_nth r : (r < N)%nat -> vget RO (omega_vec RO d) r = omg r.
-Proof.
-  intros H. unfold vget, omega_vec. rewrite nth_build by auto. rewrite ofnat_INR. reflexivity.
-Qed.
-Lemma toF_projQ : feq N (toF (projQ RO d)) Qf.
-Proof.
-  intros r c Hr Hc. unfold toF, projQ. rewrite mget_mbuild by auto.
-  rewrite !omega_vec_nth by auto. unfold Qf, cofr. simpl. destruct (Nat.eqb r c); reflexivity.
-Qed.
 Lemma Qf_herm : fherm N Qf.
 Proof.
   intros r c _ _. unfold fadj, Qf, cconj. simpl. rewrite (Nat.eqb_sym c r). f_equal; ring.
@@ -868,6 +888,20 @@ Proof.
     + rewrite <- (Nat.mod_unique (a * d + e) (d + 1) a (e - a)); lia.
     + rewrite <- (Nat.mod_unique (a * d + e) (d + 1) (a - 1) (d + 1 - a + e)); try lia.
       destruct a; [lia|]. simpl. nia.
+Qed.
+
+Lemma omega_vec_nth r : (r < N)%nat -> vget RO (omega_vec RO d) r = omg r.
+Proof.
+  intros H. unfold vget, omega_vec.
+  rewrite (nth_concat_build d d (fun a c => if Nat.eqb a c then odiv RO (o1 RO) (osqrt RO (ofnat RO d)) else o0 RO) r (o0 RO)) by auto.
+  destruct (div_mod_lt d r Hd H) as [H1 H2]. unfold omg.
+  assert (E : r = (r / d * d + r mod d)%nat) by (rewrite (Nat.div_mod r d) at 1 by lia; lia).
+  rewrite E at 3. rewrite stride_diag by auto. rewrite ofnat_INR. reflexivity.
+Qed.
+Lemma toF_projQ : feq N (toF (projQ RO d)) Qf.
+Proof.
+  intros r c Hr Hc. unfold toF, projQ. rewrite mget_mbuild by auto.
+  rewrite !omega_vec_nth by auto. unfold Qf, cofr. simpl. destruct (Nat.eqb r c); reflexivity.
 Qed.
 
 (* <omega, x> = s * sum_a x_{a d + a} *)
@@ -1152,7 +1186,7 @@ Theorem lindblad_cCP_list m gam Lk G x : basis_complete d basis ->
   (forall k, (k < m)%nat -> 0 <= gam k) ->
   0 <= fst (qform N (toF (projected_choi RO d (liouville_to_choi RO d S basis))) x).
 Proof.
-  intros Hc HS Hg. unfold N. rewrite (qform_projected d).
+  intros Hc HS Hg. unfold N. rewrite (qform_projected d Hd).
   fold N. rewrite (qform_choi_of (lindblad_map d m gam Lk G) _ HS).
   apply lindblad_cCP_form; auto. apply Qf_traceless; auto.
 Qed.
@@ -1283,3 +1317,16 @@ Qed.
 Theorem tpl_remap_nonpauli p total' : pc_tpl (tpl_remap RO false perm total' p) = None.
 Proof. unfold tpl_remap. destruct (pc_tpl p); reflexivity. Qed.
 End RemapList.
+
+(* choi_formula at the level of the list model: for a superoperator matrix S_ij = tr(C_i Phi(C_j)) of a
+   linear map Phi the code's contraction + reshape is sum_ab E_ab (x) Phi(E_ab) *)
+Theorem choi_formula d (Hd : (0 < d)%nat) basis S Phi r c :
+  basis_complete d basis -> lin_map d (length basis) (Cl basis) Phi ->
+  (forall i j, (i < length basis)%nat -> (j < length basis)%nat -> Sfun S i j = liou_of d (Cl basis) Phi i j) ->
+  (r < d * d)%nat -> (c < d * d)%nat ->
+  toF (liouville_to_choi RO d S basis) r c = Phi (Eab (r / d) (c / d)) (r mod d)%nat (c mod d)%nat.
+Proof.
+  intros Hc Hl HS Hr Hcc. rewrite choi_entry by auto. rewrite (choiF_ext d basis _ _ HS).
+  destruct (div_mod_lt d r Hd Hr), (div_mod_lt d c Hd Hcc). unfold choiF.
+  apply choi4_formula; auto.
+Qed.
